@@ -49,16 +49,21 @@ Inductive tty : Type :=
 | TRef (t : tty)
 | TSignal.
 
+(* pairwise test of two lists of equal length *)
+Section Forall2b.
+  Context {A B : Type} (f : A -> B -> bool).
+  Fixpoint forall2b (l : list A) (l' : list B) {struct l} : bool :=
+    match l, l' with
+    | [], [] => true
+    | x :: r, y :: r' => f x y && forall2b r r'
+    | _, _ => false
+    end.
+End Forall2b.
+
 Fixpoint sty_eqb (a b : sty) {struct a} : bool :=
   match a, b with
   | SAtom x, SAtom y => x =? y
-  | STuple l, STuple l' =>
-      (fix go (l l' : list sty) {struct l} : bool :=
-         match l, l' with
-         | [], [] => true
-         | x :: r, y :: r' => sty_eqb x y && go r r'
-         | _, _ => false
-         end) l l'
+  | STuple l, STuple l' => forall2b (fun x y => sty_eqb x y) l l'
   | SList x, SList y => sty_eqb x y
   | SSet x, SSet y => sty_eqb x y
   | SMap k v, SMap k' v' => sty_eqb k k' && sty_eqb v v'
@@ -75,12 +80,7 @@ Fixpoint tty_eqb (a b : tty) {struct a} : bool :=
   | TTsw x p m, TTsw y p' m' => sty_eqb x y && (p =? p') && (m =? m')
   | TTsb nm fs, TTsb nm' fs' =>
       (nm =? nm') &&
-      (fix go (l l' : list (Z * tty)) {struct l} : bool :=
-         match l, l' with
-         | [], [] => true
-         | (f, x) :: r, (f', y) :: r' => (f =? f') && tty_eqb x y && go r r'
-         | _, _ => false
-         end) fs fs'
+      forall2b (fun ft gt => (fst ft =? fst gt) && tty_eqb (snd ft) (snd gt)) fs fs'
   | TRef x, TRef y => tty_eqb x y
   | TSignal, TSignal => true
   | _, _ => false
@@ -95,12 +95,7 @@ Fixpoint tty_equiv (a b : tty) {struct a} : bool :=
   | TTsd k v, TTsd k' v' => sty_eqb k k' && tty_equiv v v'
   | TTsw x p m, TTsw y p' m' => sty_eqb x y && (p =? p') && (m =? m')
   | TTsb _ fs, TTsb _ fs' =>
-      (fix go (l l' : list (Z * tty)) {struct l} : bool :=
-         match l, l' with
-         | [], [] => true
-         | (f, x) :: r, (f', y) :: r' => (f =? f') && tty_equiv x y && go r r'
-         | _, _ => false
-         end) fs fs'
+      forall2b (fun ft gt => (fst ft =? fst gt) && tty_equiv (snd ft) (snd gt)) fs fs'
   | TRef x, TRef y => tty_equiv x y
   | TSignal, TSignal => true
   | _, _ => false
@@ -205,6 +200,29 @@ Definition allowed_t (cn : list tty) (t : tty) : bool :=
 Definition allowed_z (cn : list Z) (n : Z) : bool :=
   match cn with [] => true | _ => existsb (fun c => c =? n) cn end.
 
+(* the matchers' loops over tuple elements / bundle fields: in order, threading the map *)
+Section MatchList.
+  Context {P T : Type} (f : P -> T -> rmap -> option rmap).
+  Fixpoint match_list (ps : list P) (ts : list T) (m : rmap) {struct ps} : option rmap :=
+    match ps, ts with
+    | [], [] => Some m
+    | p :: ps', t :: ts' => match f p t m with Some m' => match_list ps' ts' m' | None => None end
+    | _, _ => None
+    end.
+End MatchList.
+
+Definition obind {A B : Type} (o : option A) (f : A -> option B) : option B :=
+  match o with Some x => f x | None => None end.
+
+Section MapM.
+  Context {P R : Type} (f : P -> option R).
+  Fixpoint mapM (ps : list P) : option (list R) :=
+    match ps with
+    | [] => Some []
+    | p :: r => obind (f p) (fun x => option_map (cons x) (mapM r))
+    end.
+End MapM.
+
 (* homogeneous_tuple_element *)
 Definition hom_elem (l : list sty) : option sty :=
   match l with
@@ -230,13 +248,7 @@ Fixpoint smatch (p : spat) (s : sty) (m : rmap) {struct p} : option rmap :=
       end
   | PSFix ps =>
       match s with
-      | STuple l =>
-          (fix go (ps : list spat) (l : list sty) (m : rmap) {struct ps} : option rmap :=
-             match ps, l with
-             | [], [] => Some m
-             | q :: ps', x :: l' => match smatch q x m with Some m' => go ps' l' m' | None => None end
-             | _, _ => None
-             end) ps l m
+      | STuple l => match_list (fun q x m => smatch q x m) ps l m
       | _ => None
       end
   | PSSet c => match s with SSet e => smatch c e m | _ => None end
@@ -300,12 +312,7 @@ Fixpoint tmatch (p : tpat) (t0 : tty) (m : rmap) {struct p} : option rmap :=
       match t with
       | TTsb tname tfs =>
           if name_ok named name tname && fnames_eqb fps tfs then
-            (fix go (fps : list (Z * tpat)) (tfs : list (Z * tty)) (m : rmap) {struct fps} : option rmap :=
-               match fps, tfs with
-               | [], [] => Some m
-               | (_, q) :: fps', (_, x) :: tfs' => match tmatch q x m with Some m' => go fps' tfs' m' | None => None end
-               | _, _ => None
-               end) fps tfs m
+            match_list (fun fq gx m => tmatch (snd fq) (snd gx) m) fps tfs m
           else None
       | _ => None
       end
@@ -343,12 +350,7 @@ Fixpoint imatch (p : tpat) (t0 : tty) (m : rmap) {struct p} : option rmap :=
       match t with
       | TTsb tname tfs =>
           if name_ok named name tname && fnames_eqb fps tfs then
-            (fix go (fps : list (Z * tpat)) (tfs : list (Z * tty)) (m : rmap) {struct fps} : option rmap :=
-               match fps, tfs with
-               | [], [] => Some m
-               | (_, q) :: fps', (_, x) :: tfs' => match imatch q x m with Some m' => go fps' tfs' m' | None => None end
-               | _, _ => None
-               end) fps tfs m
+            match_list (fun fq gx m => imatch (snd fq) (snd gx) m) fps tfs m
           else None
       | _ => None
       end
@@ -382,9 +384,6 @@ Definition omatch (p : tpat) (t : tty) (m : rmap) : option rmap :=
 (* Substitution: scalar_pattern_resolve / ts_pattern_resolve                  *)
 (* ------------------------------------------------------------------------- *)
 
-Definition obind {A B : Type} (o : option A) (f : A -> option B) : option B :=
-  match o with Some x => f x | None => None end.
-
 Fixpoint sresolve (p : spat) (m : rmap) {struct p} : option sty :=
   match p with
   | PSVar v _ => afind v (r_sc m)
@@ -392,12 +391,7 @@ Fixpoint sresolve (p : spat) (m : rmap) {struct p} : option sty :=
   | PSUnk0 | PSUnk1 _ => None
   | PSHom c => option_map SList (sresolve c m)
   | PSFix ps =>
-      option_map STuple
-        ((fix go (ps : list spat) : option (list sty) :=
-            match ps with
-            | [] => Some []
-            | q :: ps' => obind (sresolve q m) (fun x => option_map (cons x) (go ps'))
-            end) ps)
+      option_map STuple (mapM (fun q => sresolve q m) ps)
   | PSSet c => option_map SSet (sresolve c m)
   | PSMap k v => obind (sresolve k m) (fun a => option_map (SMap a) (sresolve v m))
   end.
@@ -416,11 +410,7 @@ Fixpoint tresolve (p : tpat) (m : rmap) {struct p} : option tty :=
   | PTsw any per mn sp => obind (sresolve sp m) (fun s => if any then None else Some (TTsw s per mn))
   | PTsb named name fps =>
       option_map (TTsb (if named then name else 0))
-        ((fix go (fps : list (Z * tpat)) : option (list (Z * tty)) :=
-            match fps with
-            | [] => Some []
-            | (f, q) :: fps' => obind (tresolve q m) (fun x => option_map (cons (f, x)) (go fps'))
-            end) fps)
+        (mapM (fun fq => option_map (pair (fst fq)) (tresolve (snd fq) m)) fps)
   | PTsbVar v => afind v (r_ts m)
   | PRef q => option_map mk_ref (tresolve q m)
   | PSignal => Some TSignal
@@ -456,8 +446,7 @@ Fixpoint collect_s (p : spat) (a : racc) (vr : Z) {struct p} : racc :=
   | PSUnk0 => add_struct a
   | PSUnk1 c | PSHom c | PSSet c => collect_s c (add_struct a) (half vr)
   | PSFix ps =>
-      (fix go (ps : list spat) (a : racc) {struct ps} : racc :=
-         match ps with [] => a | q :: ps' => go ps' (collect_s q a (half vr)) end) ps (add_struct a)
+      fold_left (fun a q => collect_s q a (half vr)) ps (add_struct a)
   | PSMap k v => collect_s v (collect_s k (add_struct a) (half vr)) (half vr)
   end.
 
@@ -471,8 +460,7 @@ Fixpoint collect_t (p : tpat) (a : racc) (vr : Z) {struct p} : racc :=
   | PTsd k v => collect_t v (collect_s k (add_struct a) 100) nested
   | PTsbVar v => add_var (0, v) nested (add_struct a)
   | PTsb _ _ fps =>
-      (fix go (fps : list (Z * tpat)) (a : racc) {struct fps} : racc :=
-         match fps with [] => a | (_, q) :: fps' => go fps' (collect_t q a nested) end) fps (add_struct a)
+      fold_left (fun a fq => collect_t (snd fq) a nested) fps (add_struct a)
   | PRef q => collect_t q a vr
   end.
 
@@ -612,8 +600,7 @@ Fixpoint size_vars_t (p : tpat) (acc : list Z) {struct p} : list Z :=
   | PTsd _ v => size_vars_t v acc
   | PRef q => size_vars_t q acc
   | PTsb _ _ fps =>
-      (fix go (fps : list (Z * tpat)) (acc : list Z) {struct fps} : list Z :=
-         match fps with [] => acc | (_, q) :: fps' => go fps' (size_vars_t q acc) end) fps acc
+      fold_left (fun acc fq => size_vars_t (snd fq) acc) fps acc
   | _ => acc
   end.
 
